@@ -8,8 +8,19 @@ from units import U
 ID = 'C20'
 ZERO_LABELS = True      # a share of the cases is asked with candidates numbered from 0 (harness/common.py LABEL_MODE)
 LEVEL = 'proof'
-TIE = {'vote.py validators / VoteMagnitudeChecker': 'correspondence', 'candidate.py nominators': 'correspondence',
-       'convert.InvalidVoteEliminator': 'correspondence'}
+# translator tie (tools/py2v.py part 6): unit of Gen/STATUS.json -> the file proving generated = model.  When the translator rejects
+# the current source the unit falls back to the correspondence streams below (run.py records it in coverage.translator_fallback);
+# a GenTie theorem that no longer checks is a broken obligation of C20 and widens the search for a failing ballot.
+GEN_TIES = {'Validate': 'Props/GenTie_Validate.v'}
+TIE = {'vote.py VoteMagnitudeChecker.is_valid / check / __bool__ (_active), DefaultedCheckers.__getitem__, the validate methods of Simple / '
+       'Approval / Ranked / Score / EnumScore / Range validators (whole bodies)':
+           'translator (Gen/Validate.v regenerated on every run; Props/GenTie_Validate.v proves each equal to Model/Validate.v - acceptance '
+           'or a rejection of the same kind - for every configuration and every object of the grammar) + correspondence',
+       'candidate.py Basic / Person / Party nominators (isinstance cascades read against the class hierarchy of candidate.py)':
+           'translator (GenTie_nominator) + correspondence',
+       'convert.InvalidVoteEliminator.convert (try / except VoteError as a filter, del of the rejected keys)':
+           'translator (GenTie_eliminator) + correspondence',
+       'the constructors (__init__: bounds -> checkers, DefaultedCheckers from a dict of bounds)': 'correspondence'}
 RULE = ('corpus; exhaustive stream: every object of the ballot grammar up to size 3 over a 6-symbol alphabet per vote type x ~40 '
         'validator configurations (quick: sampled); random stream: grammar objects to size 8 (wrong containers, nested collections as '
         'candidates, duplicates across shared ranks, empty ballots, out-of-range / non-enumerated scores, blank and coalition candidates) '
